@@ -23,12 +23,18 @@ pub struct WhitenCase {
     pub c: Common,
 }
 
-/// |cov(transform(X)) − I| <= K_COV · eps · (n + p) · p · cond(cov X)  +  4 · (32 · eps · max|x| / sqrt(λ_min))²
-/// (first term: forming and factorising the covariance in working precision, amplified by its
-/// condition number; second term: second-order effect of the rounding of the column means).
+/// Tolerance of the covariance post-condition, |cov(transform(X)) − I| (largest entry):
+///   direct part  = K_COV · eps · (n + p) · p · cond(cov X)  +  4 · (32 · eps · max|x| / sqrt(λ_min))²
+///     (forming and factorising the covariance in working precision, amplified by its condition
+///     number; second-order effect of the rounding of the column means) — used alone for Cholesky;
+///   PCA and ZCA go through linfa-linalg's iterative SVD, whose deflation leaves residuals far above
+///     working precision: for them the tolerance is at least SVD_REL · cond, SVD_REL = 1e-6 for f64
+///     (DESIGN C16: "I ± 1e-6·cond") and 2e-3 for f32.
 pub const K_COV: f64 = 8.0;
-/// the covariance post-condition is judged only where that tolerance is below this value
-pub const COV_TOL_MAX: f64 = 1e-2;
+pub const SVD_REL_F64: f64 = 1e-6;
+pub const SVD_REL_F32: f64 = 2e-3;
+/// the covariance post-condition is judged only where its tolerance is below this value
+pub const COV_TOL_MAX: f64 = 2e-2;
 /// linfa clamps singular values of the centred data below 1e-8 (PCA) and inverse square roots of
 /// covariance eigenvalues below 1e-8 (ZCA) to that absolute value; data within a factor 10 of
 /// either clamp are outside the judged domain.
@@ -50,6 +56,21 @@ pub fn fit<F: Elem>(k: WhKind, x: &Array2<F>, view: bool) -> Result<FittedWhiten
     } else {
         whitener(k).fit(&DatasetBase::new(x.clone(), t))
     }
+}
+
+/// largest |cov(Z) − I| entry (sample covariance, divisor n − 1) and its position
+fn deviation_from_identity(z: &[Vec<f64>], p: usize) -> (f64, usize, usize) {
+    let zc = covariance(&z.to_vec(), 1.0);
+    let mut worst = (0.0f64, 0usize, 0usize);
+    for a in 0..p {
+        for b in 0..p {
+            let d = (zc[a][b] - if a == b { 1.0 } else { 0.0 }).abs();
+            if d > worst.0 || d.is_nan() {
+                worst = (d, a, b);
+            }
+        }
+    }
+    worst
 }
 
 pub fn check(case: &WhitenCase, obs: &mut Obs) {
@@ -95,7 +116,12 @@ fn run<F: Elem>(case: &WhitenCase, obs: &mut Obs) {
         return;
     }
     let kw = maxabs / lmin.sqrt();
-    let cov_tol = K_COV * eps * ((n + p) * p) as f64 * cond + 4.0 * (32.0 * eps * kw).powi(2);
+    let direct = K_COV * eps * ((n + p) * p) as f64 * cond + 4.0 * (32.0 * eps * kw).powi(2);
+    let svd_rel = if c.f32 { SVD_REL_F32 } else { SVD_REL_F64 };
+    let cov_tol = match case.method {
+        WhKind::Cholesky => direct,
+        WhKind::Pca | WhKind::Zca => direct.max(svd_rel * cond),
+    };
     if cov_tol > COV_TOL_MAX {
         obs.skip("training_data_ill_conditioned");
         return;
@@ -140,29 +166,39 @@ fn run<F: Elem>(case: &WhitenCase, obs: &mut Obs) {
     if obs.ensure(zw.iter().flatten().all(|v| v.is_finite()), "whiten:non-finite-output", || {
         "whitened training data contain a non-finite value".to_string()
     }) {
-        let zc = covariance(&zw, 1.0);
-        let mut worst = (0.0f64, 0usize, 0usize);
-        for a in 0..p {
-            for b in 0..p {
-                let d = (zc[a][b] - if a == b { 1.0 } else { 0.0 }).abs();
-                if d > worst.0 || d.is_nan() {
-                    worst = (d, a, b);
-                }
+        let worst = deviation_from_identity(&zw, p);
+        if !(worst.0 <= cov_tol) {
+            let detail = format!(
+                "{:?}: sample covariance of the whitened training data ({n}x{p}, {}, cond {cond:.3e}) deviates from I by {:.3e} at ({},{}) (tol {:.3e})",
+                case.method,
+                if c.f32 { "f32" } else { "f64" },
+                worst.0,
+                worst.1,
+                worst.2,
+                cov_tol
+            );
+            // PCA and ZCA rest on linfa-linalg's iterative SVD, which sporadically stops before
+            // convergence. Such a failure is chaotic in the input; a wrong whitening formula is not.
+            // Recognise the former by refitting on the same data with the feature order reversed.
+            let cured = p >= 2
+                && matches!(case.method, WhKind::Pca | WhKind::Zca)
+                && {
+                    let xr: Array2<F> = build(&c.x.iter().map(|r| r.iter().rev().copied().collect()).collect::<Vec<Vec<f64>>>(), p, c.fortran);
+                    match vengine::guard(|| fit::<F>(case.method, &xr, c.meta.view).map(|wr| wr.arr(xr.clone()))) {
+                        Ok(Ok(zr)) if zr.dim() == (n, p) => deviation_from_identity(&widen(&zr), p).0 <= cov_tol,
+                        _ => false,
+                    }
+                };
+            if cured {
+                obs.class("svd_sporadic_failure");
+                obs.fail(
+                    "whiten:svd-sporadic-inaccuracy",
+                    format!("{detail}; refitting on the same data with the features in reverse order whitens within tolerance, so the deviation stems from the SVD iteration (linfa-linalg), not from the whitening formula"),
+                );
+            } else {
+                obs.fail("whiten:covariance-not-identity", detail);
             }
         }
-        if std::env::var("C16_TRACE").is_ok() {
-            eprintln!("TRACE {:?} {} {} {} {:e} {:e} {:e} {:e}", case.method, c.f32, n, p, cond, kw, worst.0, cov_tol);
-            if worst.0 > 1e4 * eps * cond {
-                let body = serde_json::json!({"sub": "whiten", "case": case});
-                let _ = std::fs::write(format!("/tmp/c16-scratch/big-{:?}-{}-{}-{:.3e}.json", case.method, n, p, worst.0), body.to_string());
-            }
-        }
-        obs.ensure(worst.0 <= cov_tol || std::env::var("C16_TRACE").is_ok(), "whiten:covariance-not-identity", || {
-            format!(
-                "{:?}: sample covariance of the whitened training data ({n}x{p}, cond {cond:.3e}) deviates from I by {:.3e} at ({},{}) (tol {:.3e})",
-                case.method, worst.0, worst.1, worst.2, cov_tol
-            )
-        });
     }
 
     // ---- the fitted transform is (Y − mean) · Wᵀ on any matrix
